@@ -171,6 +171,30 @@ def replay(recs):
                             if not ok:
                                 out.append(dict(site=f"{cname}.tangent(at)/{dim}D", stratum="point-on-quadric", case={"Q": r["Q"], "at": X},
                                                 expected=(Qm @ x).tolist(), observed=obs))
+                    # tangent(at) in the points of the quadric that intersect() returns - real or a complex conjugate pair - and in
+                    # the exact Gaussian-integer points of the specification: the hyperplane Q x, which contains x
+                    if not r["deg"] and r["r"]["k"] != "line-in-quadric":
+                        try:
+                            with np.errstate(all="ignore"):
+                                ret = [np.asarray(x, dtype=complex) for x in pts_list(mk().intersect(g.Line(P(r["A"]), P(r["B"]))))]
+                        except Exception:  # noqa: BLE001
+                            ret = []
+                        ats = [("returned-by-intersect", x) for x in ret] + [("gaussian-point", gvec(q)) for q in r["r"]["gpts"]]
+                        for aname, x in ats:
+                            if not np.all(np.isfinite(x)) or np.linalg.norm(Qm @ x) <= 1e-9 * np.linalg.norm(Qm) * np.linalg.norm(x):
+                                continue
+                            cplx = bool(np.abs((x / x[np.argmax(np.abs(x))]).imag).max() > 1e-9)
+                            try:
+                                tp = mk().tangent(g.Point(x))
+                                tps = list(tp) if isinstance(tp, (list, tuple)) else [tp]
+                                h = np.asarray(tps[0].array, dtype=complex).reshape(-1)
+                                ok = len(tps) == 1 and h.shape == x.shape and same_class(h, Qm @ x, 1e-6) and abs(h @ x) <= 1e-7 * np.linalg.norm(h) * np.linalg.norm(x)
+                                obs = h.tolist().__repr__()
+                            except Exception as e:  # noqa: BLE001
+                                ok, obs = False, f"raised {type(e).__name__}: {e}"
+                            if not ok:
+                                out.append(dict(site=f"{cname}.tangent(at)/{dim}D/{aname}", stratum=("complex-point-on-quadric" if cplx else "point-on-quadric"),
+                                                case={"Q": r["Q"], "at": str(x.tolist())}, expected=str((Qm @ x).tolist()), observed=obs))
             elif t == "polar":
                 Q = np.array(r["Q"])
                 c = g.Conic(Q)
